@@ -49,6 +49,7 @@ import (
 	"bytes"
 	"io"
 	"iter"
+	"regexp"
 	"regexp/syntax"
 	"strconv"
 	"strings"
@@ -512,12 +513,20 @@ func (r *Regex) Longest() {
 //	prefix2, complete2 := re2.LiteralPrefix()
 //	// prefix2 = "Hello", complete2 = true
 func (r *Regex) LiteralPrefix() (prefix string, complete bool) {
-	re, err := syntax.Parse(r.pattern, syntax.Perl)
+	// The exact value depends on how package regexp compiles the expression
+	// (program prefix, one-pass analysis, case folding), so it is taken from
+	// there; this is not on any search path.
+	var std *regexp.Regexp
+	var err error
+	if r.posix {
+		std, err = regexp.CompilePOSIX(r.pattern)
+	} else {
+		std, err = regexp.Compile(r.pattern)
+	}
 	if err != nil {
 		return "", false
 	}
-	re = re.Simplify()
-	return literalPrefix(re)
+	return std.LiteralPrefix()
 }
 
 // literalPrefix extracts the literal prefix from a parsed regex AST.
